@@ -269,6 +269,12 @@ pub fn replay_sj(rep: &mut Report, rec: &J) {
 	match guarded(|| {
 		let js = Value::from_serde_json(sj.clone());
 		let back = js.clone().into_serde_json();
+		// the From impls are the same conversions
+		let js2: Value = sj.clone().into();
+		let back2 = serde_json::Value::from(js.clone());
+		if js2 != js || back2 != back {
+			panic!("From<serde_json::Value> for Value / From<Value> for serde_json::Value differ from from_serde_json / into_serde_json");
+		}
 		(project(&js), back)
 	}) {
 		Err(p) => rep.mismatch("C18.panic", json!({"what": "conversion panicked", "vector": rec, "panic": p})),
